@@ -56,6 +56,12 @@ def r1(ctx: Ctx) -> None:
         ctx.check(ok, g, h.event.node, f"{FPS}: market-step-begin hook filtered to the target instance, only when enabled", "EventHook(self, 'market', True, time=window, specific_instance=self.target_market) under is_enabled",
                   f"type={h.hook_type} before={h.is_before} instance={short(h.specific_instance)} enabled-cond={en}")
         t = strip_ver(h.time) if h.time is not None else NONE
+        if t[0] != "comp" and h.time is not None:
+            from ..kit import seq_value
+
+            sv = seq_value(h.path, h.time)  # a list filled in a loop is the same sequence as the comprehension
+            if sv is not None:
+                t = strip_ver(sv)
         ok = t[0] == "comp" and len(t[3]) == 1 and not t[3][0][2] and len(t[3][0][0]) == 1
         if ok:
             b = ("bound", t[3][0][0][0])
